@@ -113,7 +113,7 @@ class C17(core.Check):
     workers = 8
     rule = (
         "clamp cases: LineClamp / PlaneClamp / RadialClamp / CurveClamp (line, circle, linear- and spline-interpolated "
-        "curves) / ParametricSurfaceClamp (paraboloid, cylinder, sheared plane) / FreeClamp created at a position on "
+        "curves) / ParametricSurfaceClamp (paraboloid, cylinder, sheared plane, bilinear patch) / FreeClamp created at a position on "
         "or off the manifold, with end points, normals, axes and origins in a rational frame in general position "
         "(non-unit, non-zero), optional bounds, then 2-5 parameter updates within bounds; link cases: Translation / "
         "Symmetry / Rotation links with 1-4 leader moves of any size (rotation links: exact rotations about the axis "
@@ -136,9 +136,13 @@ class C17(core.Check):
     partial_note = (
         "theorems: positions of line/plane/radial clamps lie on the manifold for all parameters; the reported initial "
         "position is the closest point of the segment/plane (and the creation position when that is on it); "
-        "translation/symmetry/rotation links keep their relation for leader moves of any size; update is pure. "
-        "Curve and surface clamps (positions through user functions, parameters through scipy minimisers) and the "
-        "accuracy of the minimiser are checked by the oracle only."
+        "CurveClamp on a LineCurve (collinear, closest admissible point within the curve's bounds) and on a "
+        "LinearInterpolatedCurve (on one segment of the polyline, through the knots) and ParametricSurfaceClamp on a "
+        "plane / bilinear patch for all parameters; translation/symmetry/rotation links keep their relation for leader "
+        "moves of any size, the rotation relation determines the follower uniquely and commutes with rotations about "
+        "the axis; update is pure. Circle / spline / user-function curves, curved surfaces, the knot parameters of an "
+        "interpolated curve (square roots: observed, checked by the oracle against chord lengths) and the accuracy "
+        "of the scipy minimiser are checked by the oracle only."
     )
 
     # ------------------------------------------------------------------ generators
